@@ -93,6 +93,7 @@ func init() {
 			out = append(out, Instance{Scenario: "c16_race", Params: mustJSON(ScrapeRaceParams{Against: "close", Inject: true}), Bound: 0, Shards: 4, Note: "a metrics scrape (prometheus runs Collect on its own goroutine) at every scheduling point of the stream's Close(): no crash"})
 			add(ShutdownParams{Case: "idle", Checkpoint: "auto", Membership: "static", MaxPoint: 1, MetaBucket: true}, 1)
 			add(ShutdownParams{Case: "deliver", Checkpoint: "auto", Membership: "static", MaxPoint: 60, MetaBucket: true}, 4)
+			out = append(out, Instance{Scenario: "c13_sdstop", Params: mustJSON(struct{}{}), Bound: b, Note: "leader election enabled: the service-discovery part of the shutdown while a peer has stopped answering without closing its connections (a ping to it never returns)"})
 			add(ShutdownParams{Case: "idle", Checkpoint: "auto", Membership: "couchbase", MaxPoint: 1}, 1)
 			add(ShutdownParams{Case: "deliver", Checkpoint: "auto", Membership: "couchbase", MaxPoint: 60}, 4)
 			return out
